@@ -117,7 +117,7 @@ func execOp(line string) (res string) {
 	if len(ws) < 2 {
 		return "bad-op"
 	}
-	if ws[0] == "nest" || ws[0] == "drift" {
+	if ws[0] == "nest" || ws[0] == "drift" || ws[0] == "signs" {
 		// nest <entry> <hex> <count> ...: a large input given by its repeated segments
 		doc, ok := segments(ws[2:])
 		if !ok {
@@ -439,7 +439,7 @@ func (r *runner) batch(ops []string) ([]string, string, string) {
 // watchdog so that machine load cannot produce a DIVERGE.
 func (r *runner) run(op string, confirm bool) (string, string) {
 	timeout := r.timeout
-	if strings.HasPrefix(op, "deep ") || strings.HasPrefix(op, "nest ") || strings.HasPrefix(op, "drift ") {
+	if strings.HasPrefix(op, "deep ") || strings.HasPrefix(op, "nest ") || strings.HasPrefix(op, "drift ") || strings.HasPrefix(op, "signs ") {
 		timeout = 30 * r.timeout // a megabyte of brackets: seconds of honest work before the stack limit
 		confirm = false
 	}
@@ -744,9 +744,52 @@ func (g *gen) generate(thorough bool) {
 	}
 	g.nestCases(thorough)
 	g.driftCases()
+	g.signRuns()
 	// a megabyte of brackets: oracle only (the model answers the same question at 10x the limit above)
 	g.ops = append(g.ops, "deep 5b 1000000 -")
 	g.rep.Count("gen:deep-nesting")
+}
+
+// signRuns: long runs of unary signs (1e4, 1e5, 2e6, 4 MiB), plain and mixed,
+// in front of numbers and containers and inside arrays and objects, for every
+// entry point.  A sign is not a level of nesting: a value or an error, no
+// crash.  Runs up to 1e5 are also compared with the model.
+func (g *gen) signRuns() {
+	add := func(kind string, segs ...string) {
+		op := "signs " + kind
+		for i := 0; i+1 < len(segs); i += 2 {
+			op += " " + hx.Hex([]byte(segs[i])) + " " + segs[i+1]
+		}
+		if g.seen[op] {
+			return
+		}
+		g.seen[op] = true
+		g.ops = append(g.ops, op)
+		g.rep.Count("gen:sign-runs")
+		g.rep.Count("entry:" + kind)
+	}
+	for _, n := range []int{10000, 100000, 2000000, 4 << 20} {
+		ns, half := strconv.Itoa(n), strconv.Itoa(n/2)
+		for _, kind := range []string{"tojson", "unmarshal", "series"} {
+			pre := ""
+			if kind == "series" {
+				pre = "t "
+			}
+			add(kind, pre, "1", "-", ns, "1", "1")
+			if n > 2000000 {
+				continue
+			}
+			add(kind, pre, "1", "+-", half, "1.5", "1")
+			add(kind, pre, "1", "[", "1", "-", ns, "1]", "1")
+			if n > 100000 && kind != "tojson" {
+				continue
+			}
+			add(kind, pre, "1", "- ", ns, "1", "1")
+			add(kind, pre, "1", "-", ns, "[1]", "1")
+			add(kind, pre, "1", "{a:", "1", "+", ns, "1}", "1")
+			add(kind, pre, "1", "-", ns)
+		}
+	}
 }
 
 // driftCases: the depth limit must not depend on what was parsed before.  N
@@ -919,7 +962,7 @@ func main() {
 	rep.Rule = "op = (entry point, input bytes); entry points: jsonx.ToJSON, jsonx.Unmarshal, Decoder.DecodeSeries, strtoken.Parse, " +
 		"the jsonx token stream; inputs: valid documents, all their prefixes, every single-token deletion/insertion, token soups " +
 		"(exhaustive small scopes + random), invalid UTF-8, unterminated strings/comments/brackets, with and without final newline, " +
-		"number-leaf boundaries, error-cap boundaries, nestings around the depth limit (limit-1, limit, limit+1, 10x; lists, objects, mixed; closed and unclosed), deep values after 1..1e6 closed siblings / earlier series statements, random bytes; distinct = distinct op line; non-trivial = every op"
+		"number-leaf boundaries, error-cap boundaries, nestings around the depth limit (limit-1, limit, limit+1, 10x; lists, objects, mixed; closed and unclosed), deep values after 1..1e6 closed siblings / earlier series statements, runs of 1e4..4Mi unary signs, random bytes; distinct = distinct op line; non-trivial = every op"
 	j := hx.NewJournal(f.Work)
 	run := &runner{timeout: 2 * time.Second, j: j}
 	defer run.close()
@@ -960,7 +1003,8 @@ func main() {
 	skipped := 0
 	kindOf := func(op string) string { return strings.SplitN(op, " ", 2)[0] }
 	longOp := func(op string) bool {
-		return strings.HasPrefix(op, "deep ") || strings.HasPrefix(op, "nest ") || strings.HasPrefix(op, "drift ")
+		return strings.HasPrefix(op, "deep ") || strings.HasPrefix(op, "nest ") || strings.HasPrefix(op, "drift ") ||
+			strings.HasPrefix(op, "signs ")
 	}
 	record := func(i int, res, detail string) {
 		op := ops[i]
@@ -974,6 +1018,9 @@ func main() {
 			// whatever was parsed and closed before, a value nested deeper than the limit must be refused
 			rep.Fail("depth-limit-drifts", fmt.Sprintf("after closed objects/lists (siblings or earlier statements on the same "+
 				"decoder) a value nested deeper than the limit was not refused with jsonx.tooDeep: %s %s", res, detail), []string{op})
+		case kind == "signs" && (res == "panic" || strings.HasPrefix(res, "panic ")):
+			// a run of unary signs is no nesting: it must cost no stack
+			rep.Fail("sign-run-overflows-stack", fmt.Sprintf("a long run of unary signs panicked or killed the process: %s %s", res, detail), []string{op})
 		case res == "panic" || strings.HasPrefix(res, "panic "):
 			key := kind + "-panic"
 			if kind == "deep" || kind == "nest" || strings.Contains(detail, "stack overflow") || strings.Contains(detail, "stack exceeds") {
@@ -1072,7 +1119,7 @@ func main() {
 	var mops []string
 	var midx []int
 	for i, op := range ops {
-		if strings.HasPrefix(op, "deep ") || impl[i] == "skipped" || strings.HasPrefix(op, "drift ") && opSize(op) > 400000 {
+		if strings.HasPrefix(op, "deep ") || impl[i] == "skipped" || (strings.HasPrefix(op, "drift ") || strings.HasPrefix(op, "signs ")) && opSize(op) > 400000 {
 			continue
 		}
 		mops = append(mops, op)
